@@ -19,6 +19,7 @@ import IcingaModel.C20.Limit
 import IcingaModel.C20.Utf8
 import IcingaModel.C20.SpecText
 import IcingaModel.C20.Conn
+import IcingaModel.C20.Number
 import Std.Data.HashSet
 
 open Icinga Icinga.C20 Icinga.Proto
@@ -139,6 +140,30 @@ def tokCodec : NumCodec (List UInt8) := { fmt := id, parse := fun t => if jsonNu
     the model's `decodeLossy`; total. -/
 def utf8ToChars (bs : Bytes) : Option (List Char) := some (decodeLossy bs)
 
+def hexNat (s : String) : Option Nat :=
+  s.toList.foldl (fun acc c => match acc, hexNib c with | some a, some x => some (a * 16 + x) | _, _ => none) (some 0)
+
+/-- A plain decimal integer literal (what `AppendJson(i)` emits)? -/
+def pureIntLiteral (t : List UInt8) : Bool :=
+  let t := match t with | 45 :: r => r | r => r
+  !t.isEmpty && t.all (fun b => decide (48 ≤ b.toNat) && decide (b.toNat ≤ 57))
+
+/-- The oracle text of every `d<bits>:<text>` token against the model of NumberFloat: on the integer path the text is
+    the model's literal; off it (floating-point printer) the text is not an integer literal. -/
+def numberTokensOk (toks : List String) : Bool :=
+  toks.all (fun t =>
+    if t.startsWith "d" then
+      match (t.drop 1).toString.splitOn ":" with
+      | [b, h] =>
+        match hexNat b, unhex h with
+        | some bits, some txt =>
+          (match numberFloatText bits with
+           | some lit => txt == lit
+           | none => !pureIntLiteral txt)
+        | _, _ => true
+      | _ => true
+    else true)
+
 /-- Parse value tokens (prefix order) into a model value.  `bits = false`: numbers become their wire text (what the
     encoder model prints: the decimal integer, resp. the oracle text of the number codec).  `bits = true`: numbers
     become their VALUE — `i<k>` the integer k, `d<bits>:…` the binary64 bit pattern — for the bit-exact comparison of
@@ -153,7 +178,14 @@ def parseTokV (bits : Bool) : Nat → List String → Option (JV × List String)
     else if t.startsWith "i" then ((t.drop 1).toString.toInt?).map (fun i => (.num (if bits then 105 :: intCodec.fmt i else intCodec.fmt i), rest))
     else if t.startsWith "d" then
       match (t.drop 1).toString.splitOn ":" with
-      | [b, h] => if bits then (if b.length == 16 then some (.num (100 :: b.toUTF8.toList), rest) else none) else (unhex h).map (fun x => (.num x, rest))
+      | [b, h] =>
+        if bits then (if b.length == 16 then some (.num (100 :: b.toUTF8.toList), rest) else none)
+        else
+          -- NumberFloat's integer path is MODELLED (Number.lean): the model prints the literal itself; only the
+          -- floating-point printer's text is an oracle input
+          match (hexNat b).bind numberFloatText with
+          | some t => some (.num t, rest)
+          | none => (unhex h).map (fun x => (.num x, rest))
       | _ => none
     else if t.startsWith "s" then ((unhex (t.drop 1).toString).bind utf8ToChars).map (fun s => (.str s, rest))
     else if t.startsWith "a" then
@@ -312,6 +344,11 @@ structure DSt where
   cDelivered : Nat := 0
   cOverLimit : Nat := 0
   nS : Nat := 0
+  nR : Nat := 0
+  rModelled : Nat := 0
+  rBig : Nat := 0
+  tAllocSeen : Nat := 0
+  tAllocBig : Nat := 0
   sErr : Nat := 0
   sModelCrash : Nat := 0
   failedClauses : List String := []
@@ -339,7 +376,14 @@ def specfail (d : DSt) (n : Nat) (cl : Clause) : IO DSt := do
 
 def bad (d : DSt) (n : Nat) : IO DSt := do IO.println s!"BADLINE line={n}"; return d
 
-def handleT (d : DSt) (n : Nat) (line : String) (pre post : List String) : IO DSt := do
+/-- The trailing `a<N>` token of a T line: the largest single allocation made while the reader ran. -/
+def splitAlloc (post : List String) : List String × Option Nat :=
+  match post.getLast? with
+  | some t => if t.startsWith "a" then (match (t.drop 1).toString.toNat? with | some a => (post.dropLast, some a) | none => (post, none)) else (post, none)
+  | none => (post, none)
+
+def handleT (d : DSt) (n : Nat) (line : String) (pre post0 : List String) : IO DSt := do
+  let (post, alloc?) := splitAlloc post0
   match pre, post with
   | [_v, mx, hx, _cuts], o :: orest =>
     match parseMax mx, unhex hx with
@@ -367,6 +411,13 @@ def handleT (d : DSt) (n : Nat) (line : String) (pre post : List String) : IO DS
         | none => pure ()
         match tlsRejectSpec max bs io with
         | some cl => d ← specfail d n cl
+        | none => pure ()
+        match alloc? with
+        | some a =>
+          match tlsAllocSpec max a with
+          | some cl => d ← specfail d n cl
+          | none => pure ()
+          d := { d with tAllocSeen := d.tAllocSeen + 1, tAllocBig := d.tAllocBig + (if a > allocSlack then 1 else 0) }
         | none => pure ()
         if specViolation max bs then d := { d with tViolating := d.tViolating + 1 }
         d := match io with
@@ -443,6 +494,8 @@ def handleJ (d : DSt) (n : Nat) (line : String) (pre post : List String) : IO DS
               d ← specfail d n .jsonRoundtrip
             else d := { d with jSanitised := d.jSanitised + 1 }
           | _, _ => d ← specfail d n .jsonRoundtrip
+        if !numberTokensOk tl then
+          d ← report d n "J" "NumberFloat: integer path taken/not taken against the model (Number.lean)"
         let me := jsonEncode tokCodec v
         if me != enc then
           d ← report d n "J" s!"encode impl={eh} model={hexOf me}"
@@ -702,8 +755,80 @@ def isWs (b : UInt8) : Bool := b == 32 || b == 9 || b == 10 || b == 13
 def stripWs (bs : Bytes) : Bytes := ((bs.dropWhile isWs).reverse.dropWhile isWs).reverse
 
 def modelRestore (file : Bytes) : Bool × Bool :=
-  let r := nsReadAll none (blocks 65536 (file.length + 1) file)
-  (r.final != .eof, r.items.any (fun p => restoreRecord tokCodec (stripWs (sanitiseD p)) == .crash))
+  match restoreItems (blocks 65536 (file.length + 1) file) with
+  | none => (true, false)
+  | some items => (false, items.any (fun p => restoreRecord tokCodec (stripWs (sanitiseD p)) == .crash))
+
+/-- The record the harness's S lines carry for the probe object: what it writes into check_attempt. -/
+def applyGood (p : Bytes) : Option Nat := if p == goodRecord then some 3 else none
+
+/-! ### the state file written and read by the real code (R lines) -/
+
+def bytesToNat? (t : List UInt8) : Option Nat := (String.ofList (t.map (fun b => Char.ofNat b.toNat))).toNat?
+
+/-- What the LAST record named `name` among the dictionaries the model restores carries for the observed attributes. -/
+def modelObjState (good : Char) (withValue : Bool) (name : String) (ds : List JV) : Option (ObjState (List String)) :=
+  let hit := ds.reverse.find? (fun d => match d with
+    | .obj kvs => (match dictGetS "name" kvs with | some (.str s) => s == name.toList | _ => false)
+    | _ => false)
+  match hit with
+  | some (.obj kvs) =>
+    match dictGetS "update" kvs with
+    | some (.obj up) =>
+      match dictGetS "check_attempt" up, dictGetS "last_check_result" up with
+      | some (.num t), some (.obj cr) =>
+        match bytesToNat? t, dictGetS "output" cr, dictGetS "command" cr with
+        | some k, some (.str out), some cmd =>
+          some ⟨k, (utf8Encode out).length, (out.filter (· == good)).length, if withValue then renderV true (canonV cmd) else ["z"]⟩
+        | _, _, _ => none
+      | _, _ => none
+    | _ => none
+  | _ => none
+
+def handleR (d : DSt) (n : Nat) (line : String) (pre post : List String) : IO DSt := do
+  match pre, post with
+  | [k1, n1, k2, n2, toks], fh :: o :: orest =>
+    let canonToks (bits : Bool) (ts : List String) : Option (List String) :=
+      match parseTokV bits (ts.length + 1) ts with
+      | some (v, []) => some (renderV true (canonV v))
+      | _ => none
+    let file? : Option (Option Bytes) := if fh == "-" then some none else (unhex fh).map some
+    -- (what the spec compares: numbers by their bits, what the model comparison uses: numbers by their wire text)
+    let got? : Option (Option (List (ObjState (List String)) × List (ObjState (List String)))) :=
+      match o, orest with
+      | "err", [] => some none
+      | "ok", [a1, l1, g1, a2, l2, g2, back] =>
+        match a1.toNat?, l1.toNat?, g1.toNat?, a2.toNat?, l2.toNat?, g2.toNat?, canonToks true (back.splitOn ","), canonToks false (back.splitOn ",") with
+        | some a1, some l1, some g1, some a2, some l2, some g2, some bv, some tv =>
+          some (some ([⟨a1, l1, g1, bv⟩, ⟨a2, l2, g2, ["z"]⟩], [⟨a1, l1, g1, tv⟩, ⟨a2, l2, g2, ["z"]⟩]))
+        | _, _, _, _, _, _, _, _ => none
+      | _, _ => none
+    match k1.toNat?, n1.toNat?, k2.toNat?, n2.toNat?, canonToks true (toks.splitOn ","), file?, got? with
+    | some k1, some n1, some k2, some n2, some pv, some file?, some got =>
+      let mut d := { d with steps := d.steps + 2, nR := d.nR + 1 }
+      -- the property on the implementation's own observation
+      match stateRoundtripSpec [⟨k1, n1, n1, pv⟩, ⟨k2, n2, n2, ["z"]⟩] (got.map (·.1)) with
+      | some cl => d ← specfail d n cl
+      | none => pure ()
+      match file? with
+      | some file =>
+        match stateFileSpec file with
+        | some cl => d ← specfail d n cl
+        | none => pure ()
+        -- model: the read loop and RestoreObject's decoding on the file the real DumpObjects wrote
+        d := { d with rModelled := d.rModelled + 1 }
+        match restoreObjectsM tokCodec (blocks 65536 (file.length + 1) file), got with
+        | none, some _ => d ← report d n "R" "model refuses the file the implementation restored"
+        | some _, none => d ← report d n "R" "implementation refuses the file the model restores"
+        | none, none => pure ()
+        | some ds, some (_, gt) =>
+          if [modelObjState 'x' true "vh" ds, modelObjState 'y' false "vh2" ds] != gt.map some then
+            d ← report d n "R" "restored attributes differ from the records of the file"
+      | none => pure ()
+      if n1 ≥ 65536 || n2 ≥ 65536 then d := { d with rBig := d.rBig + 1 }
+      return d.mark line
+    | _, _, _, _, _, _, _ => bad d n
+  | _, _ => bad d n
 
 def handleS (d : DSt) (n : Nat) (line : String) (pre post : List String) : IO DSt := do
   match pre with
@@ -724,6 +849,10 @@ def handleS (d : DSt) (n : Nat) (line : String) (pre post : List String) : IO DS
       -- a file the reader model gets through must not be refused; whether damaged framing is an exception of
       -- RestoreObjects or a silently shortened restore is not the property's business (compared on B lines, kind s)
       else if !mErr && obs == .err then d ← report d n "S" "reader impl=err model=ok"
+      -- a file with exactly one applicable record: the model's outcome (theorem state_model_meets_spec) is the implementation's
+      else if ((specFramesAll (file.length + 1) file).map (·.count goodRecord)) == some 1
+              && stateObsM applyGood 1 (blocks 65536 (file.length + 1) file) != obs then
+        d ← report d n "S" "well-framed file with one applicable record: outcome differs from the model's"
       if obs == .err then d := { d with sErr := d.sErr + 1 }
       return d.mark line
     | _, _ => bad d n
@@ -747,6 +876,7 @@ def handle (d : DSt) (n : Nat) (line : String) : IO DSt := do
     else if tag == "M" then handleM d n line pre post
     else if tag == "C" then handleC d n line pre post
     else if tag == "S" then handleS d n line pre post
+    else if tag == "R" then handleR d n line pre post
     else if tag == "X" then
       -- the real code crashed / aborted / hung on this operation: the property's "processed without crashing"
       let d ← specfail d n .noCrash
@@ -760,4 +890,4 @@ def handle (d : DSt) (n : Nat) (line : String) : IO DSt := do
 def main : IO Unit := do
   let stdin ← IO.getStdin
   let d ← foldLines stdin handle ({} : DSt)
-  IO.println s!"STATS cases={d.caseNo} steps={d.steps} t={d.nT} f={d.nF} b={d.nB} j={d.nJ} k={d.nK} t_ok={d.tOk} t_err={d.tErr} t_eof={d.tEof} t_errkind_diff={d.tKindDiff} t_violating={d.tViolating} buf_items={d.bItems} buf_err={d.bErr} f_chunks={d.fChunks} j_escaped={d.jEsc} j_skipped={d.jSkipped} j_sanitised={d.jSanitised} u={d.nU} u_changed={d.uChanged} k_impl_ok={d.kImplOk} k_model_ok={d.kModelOk} k_model_stricter={d.kModelStricter} k_num_range={d.kNumRange} d={d.nD} m={d.nM} d_dict={d.dDict} d_rejected={d.dRejected} d_model_silent={d.dModelSilent} m_msg={d.mMsg} m_rejected={d.mRejected} c={d.nC} c_delivered={d.cDelivered} c_overlimit={d.cOverLimit} s={d.nS} s_err={d.sErr} s_model_crash={d.sModelCrash} crashes={d.crashes} nontrivial={d.seen.size} mismatches={d.mismatches} specfails={d.specfails}"
+  IO.println s!"STATS cases={d.caseNo} steps={d.steps} t={d.nT} f={d.nF} b={d.nB} j={d.nJ} k={d.nK} t_ok={d.tOk} t_err={d.tErr} t_eof={d.tEof} t_errkind_diff={d.tKindDiff} t_violating={d.tViolating} buf_items={d.bItems} buf_err={d.bErr} f_chunks={d.fChunks} j_escaped={d.jEsc} j_skipped={d.jSkipped} j_sanitised={d.jSanitised} u={d.nU} u_changed={d.uChanged} k_impl_ok={d.kImplOk} k_model_ok={d.kModelOk} k_model_stricter={d.kModelStricter} k_num_range={d.kNumRange} d={d.nD} m={d.nM} d_dict={d.dDict} d_rejected={d.dRejected} d_model_silent={d.dModelSilent} m_msg={d.mMsg} m_rejected={d.mRejected} c={d.nC} c_delivered={d.cDelivered} c_overlimit={d.cOverLimit} s={d.nS} r={d.nR} r_modelled={d.rModelled} r_big={d.rBig} t_alloc_seen={d.tAllocSeen} t_alloc_big={d.tAllocBig} s_err={d.sErr} s_model_crash={d.sModelCrash} crashes={d.crashes} nontrivial={d.seen.size} mismatches={d.mismatches} specfails={d.specfails}"
